@@ -9,18 +9,22 @@
 EXTENDS Naturals, Sequences, FiniteSets, TLC, Json, IOUtils
 Trace == ndJsonDeserialize(IOEnv.VERIF_TRACE)
 N == Len(Trace)
-VARIABLES l, issued, entered, ok, calls
-vars == <<l, issued, entered, ok, calls>>
+VARIABLES l, issued, entered, ok, calls, exps
+vars == <<l, issued, entered, ok, calls, exps>>
 Ev == Trace[l]
 Is(e) == l <= N /\ Ev.ev = e
 Step == l' = l + 1 /\ TLCSet(1, l)
-Init == l = 1 /\ issued = {} /\ entered = {} /\ ok = 0 /\ calls = 0 /\ TLCSet(1, 0)
+Init == l = 1 /\ issued = {} /\ entered = {} /\ ok = 0 /\ calls = 0 /\ exps = {} /\ TLCSet(1, 0)
 
-Reset == Is("Reset") /\ issued' = {} /\ entered' = {} /\ ok' = 0 /\ calls' = 0 /\ Step
+Reset == Is("Reset") /\ issued' = {} /\ entered' = {} /\ ok' = 0 /\ calls' = 0 /\ exps' = {} /\ Step
+Exp(e) == IF "exp" \in DOMAIN e THEN e.exp ELSE "ok"
+ExpOf(c) == IF \E x \in exps : x[1] = c THEN (CHOOSE x \in exps : x[1] = c)[2] ELSE "ok"
 CallStart ==
   /\ Is("CallStart") /\ ~(\E x \in issued : x[2] = Ev.c)
   /\ issued' = issued \cup {<<Ev.kind, Ev.c, Ev.padlen, Ev.padsum>>}
-  /\ calls' = calls + (IF Ev.kind = "call" THEN 1 ELSE 0)
+     \* exp: what this call is made to end in ("ok"; "hstat" the handler returns a status of its own; "nf" the route does not exist)
+  /\ calls' = calls + (IF Ev.kind = "call" /\ Exp(Ev) = "ok" THEN 1 ELSE 0)
+  /\ exps' = exps \cup {<<Ev.c, Exp(Ev)>>}
   /\ UNCHANGED <<entered, ok>> /\ Step
 \* the receiver sees exactly one issued message of that kind: same tag, same padding, own metadata
 HEnter ==
@@ -28,18 +32,23 @@ HEnter ==
   /\ <<Ev.kind, Ev.arg, Ev.padlen, Ev.padsum>> \in issued
   /\ Ev.arg \notin entered
   /\ Ev.metaok        \* the complete metadata (every key in order, empty values, repeated keys) is the sender's
-  /\ entered' = entered \cup {Ev.arg} /\ UNCHANGED <<issued, ok, calls>> /\ Step
+  /\ ExpOf(Ev.arg) # "nf"            \* no handler runs for a route that does not exist
+  /\ entered' = entered \cup {Ev.arg} /\ UNCHANGED <<issued, ok, calls, exps>> /\ Step
 \* ... and still the same at handler exit
-HRecheck == Is("HRecheck") /\ Ev.same /\ UNCHANGED <<issued, entered, ok, calls>> /\ Step
+HRecheck == Is("HRecheck") /\ Ev.same /\ UNCHANGED <<issued, entered, ok, calls, exps>> /\ Step
 \* an OK result is the reply to this very call
 CallDone ==
   /\ Is("CallDone")
   /\ (Ev.code = 0 => Ev.okres /\ Ev.okpad /\ Ev.okmeta /\ Ev.c \in entered)
-  /\ ok' = ok + (IF Ev.code = 0 THEN 1 ELSE 0) /\ UNCHANGED <<issued, entered, calls>> /\ Step
+     \* among concurrent calls each one ends in what ITS handler did: the status (code, message) of its own handler, or Not Found
+  /\ CASE ExpOf(Ev.c) = "hstat" -> Ev.code = 1001 /\ Ev.msg = "m-" \o Ev.c /\ Ev.c \in entered
+       [] ExpOf(Ev.c) = "nf" -> Ev.code = 404 /\ Ev.c \notin entered
+       [] OTHER -> TRUE
+  /\ ok' = ok + (IF Ev.code = 0 THEN 1 ELSE 0) /\ UNCHANGED <<issued, entered, calls, exps>> /\ Step
 \* non-vacuity: on a healthy connection every call of the workload completed OK
-End == Is("End") /\ ok = calls /\ Ev.finished = Ev.started /\ UNCHANGED <<issued, entered, ok, calls>> /\ Step
+End == Is("End") /\ ok = calls /\ Ev.finished = Ev.started /\ UNCHANGED <<issued, entered, ok, calls, exps>> /\ Step
 Known == {"Reset", "CallStart", "HEnter", "HRecheck", "CallDone", "End", "CallHang", "WorkloadHang", "SetupFailed"}
-Skip == l <= N /\ Ev.ev \notin Known /\ UNCHANGED <<issued, entered, ok, calls>> /\ Step
+Skip == l <= N /\ Ev.ev \notin Known /\ UNCHANGED <<issued, entered, ok, calls, exps>> /\ Step
 Next == Reset \/ CallStart \/ HEnter \/ HRecheck \/ CallDone \/ End \/ Skip
 Spec == Init /\ [][Next]_vars
 Accepted == PrintT(<<"HWM", TLCGet(1), N>>) /\ TRUE
